@@ -18,6 +18,14 @@ pub(crate) mod ack_frequency;
 pub(crate) mod pacing;
 pub(crate) mod probes;
 pub(crate) mod recovery;
+pub(crate) mod lifecycle;
+pub(crate) mod antiamp;
+pub(crate) mod inflight;
+pub(crate) mod pathsm;
+pub(crate) mod ack_proc;
+pub(crate) mod path_responses;
+pub(crate) mod sendgate;
+pub(crate) mod misc_conn;
 
 /// One operation = opcode followed by integer arguments.
 pub type Ops = [Vec<i128>];
@@ -25,6 +33,30 @@ pub type Ops = [Vec<i128>];
 pub type Outs = Vec<Vec<i128>>;
 
 pub(crate) fn run(comp: &str, ops: &Ops) -> Option<Outs> {
+    if let Some(o) = misc_conn::run(comp, ops) {
+        return Some(o);
+    }
+    if let Some(o) = sendgate::run(comp, ops) {
+        return Some(o);
+    }
+    if let Some(o) = path_responses::run(comp, ops) {
+        return Some(o);
+    }
+    if let Some(o) = ack_proc::run(comp, ops) {
+        return Some(o);
+    }
+    if let Some(o) = pathsm::run(comp, ops) {
+        return Some(o);
+    }
+    if let Some(o) = inflight::run(comp, ops) {
+        return Some(o);
+    }
+    if let Some(o) = antiamp::run(comp, ops) {
+        return Some(o);
+    }
+    if let Some(o) = lifecycle::run(comp, ops) {
+        return Some(o);
+    }
     if let Some(o) = assembler::run(comp, ops) {
         return Some(o);
     }
